@@ -63,13 +63,18 @@ def work(item):
             continue
         for la in (-60.0, -1e-6, 0.0, 1e-6, 45.0, 83.5, -79.5):
             for dl in (0.0, 2.5, -2.5, 1e-7, -1e-7, 29.0, -29.0):
-                if -180 <= cm + dl <= 180:
-                    pts.append((la, cm + dl, z))
+                lo_ = cm + dl
+                if not -180 <= lo_ < 180 and not isg:
+                    lo_ = (lo_ + 180.0) % 360.0 - 180.0          # a zone next to the antimeridian: the same meridian written in [-180, 180)
+                if -180 <= lo_ <= 180:
+                    pts.append((la, lo_, z))
     pts = rng.sample(pts, min(len(pts), item['n']))
     for _ in range(item['n']):
         z = rng.choice(zones)
         cm = _cm(prj, z, isg)
         lo = cm + rng.choice([rng.uniform(-3, 3), rng.uniform(-30, 30)])
+        if not -180 <= lo < 180 and not isg:
+            lo = (lo + 180.0) % 360.0 - 180.0
         if -180 <= lo <= 180 and -180 <= cm <= 180:
             pts.append((rng.uniform(-80, 84), lo, z))
     r1 = dict(check='C10.B.psf_gridconv', function='convert.psfandgridconv', n=0, keys=set(), failures=[], samples=[])
